@@ -395,6 +395,14 @@ Proof.
   destruct (cgn_fuel_carriers data); [reflexivity|]. now rewrite S.
 Qed.
 
+Lemma nonneg_sub m data : (0 < m)%nat -> nonneg_data data -> nonneg_data (sub_data m data).
+Proof.
+  intros Hm. apply nonneg_map_vals. intros v Hv. pose proof (qn_pos m Hm) as Q.
+  induction Hv as [|x v Hx _ IH]; [constructor|]. cbn [vsub flat_map]. fold (vsub m v). apply Forall_app. split; [|exact IH].
+  apply Forall_forall. intros y Hy. apply repeat_spec in Hy. subst y. revert Q Hx. generalize (qn m). intros q Q Hx.
+  toQ. absQ. cbn in *. unfold Qdiv. apply Qmult_le_0_compat; [lra|]. apply Qlt_le_weak, Qinv_lt_0_compat. lra.
+Qed.
+
 Theorem sub_invariant m n meta nd fs k area lm data : (0 < m)%nat -> wf n data ->
   (forall cr, dom_cols cr data) -> (forall cr, dom_cols cr (sub_data m data)) ->
   ep_rel (sub_rel m) (energy_performance (mkComponents meta data nd) fs k area lm)
